@@ -4,8 +4,8 @@
    loader is a loader of that tree with the name its ModuleName() answers, then operations `ds` on the tree (the
    module side) and on the dependency loader (Model/LoaderDep.v), arbitrarily interleaved. *)
 From Coq Require Import NArith Bool List.
-From PcoreV Require Import Model.Base Model.Loader Model.LoaderSpec Model.LoaderDep
-  Proofs.LoaderProofs Proofs.LoaderDepProofs Proofs.LoaderDepCorollaries.
+From PcoreV Require Import Model.Base Model.Loader Model.LoaderSpec Model.LoaderDep Model.LoaderDepChild
+  Proofs.LoaderProofs Proofs.LoaderDepProofs Proofs.LoaderDepCorollaries Proofs.LoaderDepChildProofs.
 Import ListNotations.
 
 (* Every result of every history - entries, error codes, and the list of module loaders each lookup asks, in order -
@@ -159,4 +159,69 @@ Example C12_dep_nonvacuous_hyps :
   route dx_mods (norm n_y) = None /\ route dx_mods (norm n_cz) = None /\
   dresult_after dx_cfg dx_pre dx_mods (firstn 4 dx_ds) (DLoadEntry n_ax) = DR (REntry (EVal dv0)) [1] /\
   map_key (norm n_AX) = map_key (norm n_ax).
+Proof. vm_compute. repeat split; reflexivity. Qed.
+
+(* ---------------------------------------------------------------------------------------------- *)
+(* A LOADER PARENTED BY THE DEPENDENCY LOADER (Model/LoaderDepChild.v: px.NewParentedLoader(dep); proofs in
+   Proofs/LoaderDepChildProofs.v, a composition over the lemmas of Proofs/LoaderDepProofs.v).
+   History = `pre` on the tree, px.NewDependencyLoader(mods), px.NewParentedLoader over it, then operations on the tree,
+   on the dependency loader and on the child, arbitrarily interleaved. *)
+
+(* Every result of every history is that of the specification: a lookup through the child answers what the dependency
+   loader answers (own binding, else the module routed to, else the modules in order; the value becomes the dependency
+   loader's binding), otherwise the child's own write-once binding, otherwise not found; px.Load caches its miss in the
+   child's map, which no later answer shows; HasEntry of the child sees the two own maps only (the dependency loader's
+   HasEntry is basicLoader's: it asks no module). *)
+Theorem C12_depchild_refines :
+  forall cfg pre mods cs,
+  cfg_wf cfg = true -> forallb op_wf pre = true -> mods_ok (fst (run cfg pre)) mods = true ->
+  forallb cop_wf cs = true ->
+  map dproject (couts cfg pre mods cs) = cspec_outs cfg pre mods cs.
+Proof. exact child_refines. Qed.
+Print Assumptions C12_depchild_refines.
+
+Theorem C12_depchild_state_refines :
+  forall cfg pre mods cs,
+  cfg_wf cfg = true -> forallb op_wf pre = true -> mods_ok (fst (run cfg pre)) mods = true ->
+  forallb cop_wf cs = true ->
+  cabs (fst (crun cfg pre mods cs)) = fst (cspec_run cfg pre mods cs).
+Proof. exact child_state_refines. Qed.
+Print Assumptions C12_depchild_state_refines.
+
+(* no runtime fault, never stuck, a reported error only from a definition *)
+Theorem C12_depchild_no_fault :
+  forall cfg pre mods cs,
+  cfg_wf cfg = true -> forallb op_wf pre = true -> mods_ok (fst (run cfg pre)) mods = true ->
+  forallb cop_wf cs = true ->
+  Forall2 (fun c r => cout_ok c r = true) cs (couts cfg pre mods cs).
+Proof. exact child_results_classified. Qed.
+Print Assumptions C12_depchild_no_fault.
+
+(* THE COMPOSITION, in every state (so after every history): LoadEntry of the child = LoadEntry of the dependency loader
+   in that state when that is a value; when it is a miss, the child's own entry (what its GetEntry shows), the same module
+   loaders having been asked; and it leaves the state that the dependency loader's LoadEntry leaves. *)
+Theorem C12_depchild_compose :
+  forall cfg mods s n0,
+  snd (cstep cfg mods s (CLoadEntry n0)) =
+    compose (snd (cstep cfg mods s (CDep (DLoadEntry n0)))) (snd (cstep cfg mods s (CGetEntry n0))) /\
+  fst (cstep cfg mods s (CLoadEntry n0)) = fst (cstep cfg mods s (CDep (DLoadEntry n0))).
+Proof. exact child_lookup_compose. Qed.
+Print Assumptions C12_depchild_compose.
+
+(* Non-vacuity, over the modules of C12_dep_nonvacuous: the child misses b::x (module b asked), px.Load caches the miss in
+   the child; the child binds b::x itself; the module side then binds b::x - parents first: the child now answers the
+   module's value, which has become the dependency loader's binding, and its own binding is shadowed; HasEntry of the
+   child does not see y before a lookup made it the dependency loader's binding. *)
+Definition cx_cs : list cop :=
+  [CLoadEntry n_bx; CLoad n_bx; CGetEntry n_bx; CDefine n_bx dv2; CLoadEntry n_bx; CHas n_bx;
+   CDep (DBase (ODefine 3 n_bx dv1)); CLoadEntry n_bx; CGetEntry n_bx; CDep (DGetEntry n_bx); CDefine n_bx dv0;
+   CHas n_y; CLoad n_y; CHas n_y; CLoadEntry n_ax; CDep (DLoadEntry n_ax)].
+
+Example C12_depchild_nonvacuous :
+  forallb cop_wf cx_cs = true /\
+  couts dx_cfg dx_pre dx_mods cx_cs =
+  [DR (REntry ENone) [3]; DR (RFound None) [3]; DR (REntry EPlaceholder) []; DR (RDefined dv2) []; DR (REntry (EVal dv2)) [3]; DR (RBool true) [];
+   DB (RDefined dv1); DR (REntry (EVal dv1)) [3]; DR (REntry (EVal dv2)) []; DR (REntry (EVal dv1)) []; DR (RErr ERedefine) [];
+   DR (RBool false) []; DR (RFound (Some dv2)) [1; 3]; DR (RBool true) []; DR (REntry (EVal dv0)) [1]; DR (REntry (EVal dv0)) []] /\
+  map dproject (couts dx_cfg dx_pre dx_mods cx_cs) = cspec_outs dx_cfg dx_pre dx_mods cx_cs.
 Proof. vm_compute. repeat split; reflexivity. Qed.
